@@ -32,6 +32,7 @@ type Obligation struct {
 	// For replay
 	Fn     string
 	Inputs map[string]SV
+	Top    string // function under contract whose verification produced the obligation (inlined helpers keep their own name in Name)
 }
 
 type frame struct {
@@ -64,6 +65,11 @@ type Exec struct {
 	errs    []string
 	npaths  int
 	maxSteps int
+	// bounded > 0: bounded fallback mode - loops are unrolled up to that many iterations without using any
+	// invariant (longer paths are pruned); evaluable invariants are asserted as facts at each header visit
+	bounded   int
+	boundHits int
+	stdOK     map[*ssa.Function]bool
 	curPath string
 	// entry values for old()
 	entry *State
@@ -101,6 +107,9 @@ func (e *Exec) errorf(format string, args ...any) {
 
 func (e *Exec) oblige(st *State, name string, props []string, goal Term, note string) *Obligation {
 	o := &Obligation{Name: name, Props: props, Pc: append([]Term(nil), st.pc...), Goal: goal, NDecls: len(e.ctx.decls), Ctx: e.ctx, Note: note, Path: e.curPath}
+	if e.top != nil {
+		o.Top = fnName(e.top)
+	}
 	e.obls = append(e.obls, o)
 	return o
 }
@@ -299,18 +308,53 @@ func (e *Exec) abort(st *State, why string) {
 		e.hooks.OnForbidden(e, st, nil, why)
 		return
 	}
-	e.errorf("%s: path aborted: %s", e.top.Name(), why)
+	if e.bounded > 0 && why == "step limit" {
+		e.boundHits++
+		return
+	}
+	// code that leaves the modelled subset: nothing is proved about this path. Reported as a failed obligation
+	// of the function under contract (not as an engine error), so that the other obligations are still decided.
+	var props []string
+	if e.topSpec != nil {
+		props = append(append([]string{}, e.topSpec.Props...), e.topSpec.SafetyProps...)
+		for _, c := range e.topSpec.Ensures {
+			for _, p := range c.Props {
+				if !hasPropExact(props, p) {
+					props = append(props, p)
+				}
+			}
+		}
+	}
+	e.oblige(st, fnName(e.top)+"/outside-verified-subset", props, BoolLit(false), "path aborted: "+why)
 }
 
 // execBlock enters block b coming from pred.
 func (e *Exec) execBlock(fr *frame, b *ssa.BasicBlock, pred *ssa.BasicBlock, st *State) {
 	st.nsteps++
 	if st.nsteps > e.maxSteps {
+		if e.bounded > 0 {
+			e.boundHits++
+			return
+		}
 		e.abort(st, "step limit")
 		return
 	}
 	if li, ok := fr.loops[b]; ok {
 		unroll := li.spec != nil && li.spec.Unroll > 0
+		if e.bounded > 0 && !unroll {
+			// the bound is on the total number of loop iterations (back edges of any loop) along a path
+			if pred != nil && li.body[pred] {
+				st.backEdges++
+				if st.backEdges > e.bounded {
+					e.boundHits++
+					return
+				}
+			}
+			e.evalPhis(b, pred, st)
+			e.boundedHeader(fr, li, st)
+			e.execInstrs(fr, b, firstNonPhi(b), st)
+			return
+		}
 		if unroll {
 			if pred != nil && li.body[pred] {
 				st.unroll[b]++
@@ -406,6 +450,34 @@ func (e *Exec) propsFor(fr *frame, kind string) []string {
 		return sp.SafetyProps
 	}
 	return sp.Props
+}
+
+// boundedHeader (bounded fallback mode): the contract's invariants that can still be evaluated on the
+// current code are asserted as facts at every visit of the loop header within the bound (nothing is assumed).
+func (e *Exec) boundedHeader(fr *frame, li *loopInfo, st *State) {
+	if li.spec == nil {
+		return
+	}
+	name := fmt.Sprintf("%s/loop%d", fnName(fr.fn), li.ordinal)
+	if n, ok := pinnedLoops[fnName(fr.fn)]; !ok || n != len(fr.loops) {
+		e.notes = appendUnique(e.notes, fmt.Sprintf("%s: the function has %d loops, %d when its loop clauses were written: they are not used", fnName(fr.fn), len(fr.loops), n))
+		return
+	}
+	vars := e.loopVars(fr, li, st)
+	for _, inv := range li.spec.Invariants {
+		invProps := inv.Props
+		for _, sp2 := range e.propsFor(fr, "safety") {
+			if !hasPropExact(invProps, sp2) {
+				invProps = append(append([]string{}, invProps...), sp2)
+			}
+		}
+		g, err := e.evalSpecBool(inv.Expr, &specEnv{goal: true, into: st, st: st, old: e.entry, vars: vars, oldVars: e.entryVars, fr: fr, pkg: pkgOf(fr.fn)})
+		if err != nil {
+			e.notes = appendUnique(e.notes, fmt.Sprintf("%s: invariant %s cannot be evaluated on the current code (%v): not used", name, inv.Label, err))
+			continue
+		}
+		e.oblige(st, fmt.Sprintf("%s/inv-bounded:%s", name, inv.Label), invProps, g, "")
+	}
 }
 
 // loopHeader implements the invariant cut.
@@ -738,6 +810,7 @@ type writeSet struct {
 	classes map[string]bool
 	alloc   bool
 	all     bool
+	seen    map[*ssa.Function]bool // module callees already scanned (recursion)
 }
 
 
@@ -851,6 +924,11 @@ func (e *Exec) instrWrites(in ssa.Instruction, ws *writeSet) {
 			if b.Name() == "append" {
 				ws.classes["A:"+typeKey(c.Args[0].Type().Underlying().(*types.Slice).Elem())+"#"] = true
 			}
+			if b.Name() == "delete" {
+				if mt, ok := c.Args[0].Type().Underlying().(*types.Map); ok {
+					ws.classes["M:"+typeKey(mt.Key())+":"+typeKey(mt.Elem())+"#"] = true
+				}
+			}
 			return
 		}
 		callee := c.StaticCallee()
@@ -876,6 +954,13 @@ func (e *Exec) instrWrites(in ssa.Instruction, ws *writeSet) {
 				return
 			}
 			if e.ld.isModuleFn(callee) && len(callee.Blocks) > 0 {
+				if ws.seen == nil {
+					ws.seen = map[*ssa.Function]bool{}
+				}
+				if ws.seen[callee] {
+					return
+				}
+				ws.seen[callee] = true
 				for _, b := range callee.Blocks {
 					for _, in2 := range b.Instrs {
 						e.instrWrites(in2, ws)
